@@ -98,7 +98,8 @@ def seq(p0: int, p1: int, p2: int, p3: int, p4: int, s0: bool, s1: bool, s2: boo
     pre: PART["nreg"] > 4 or (p4 == 0 and not s4)
     post: _
     """
-    return _run(PART["skel"], [p0, p1, p2, p3, p4], [s0, s1, s2, s3, s4])
+    from vf.sym import untraced
+    return untraced(_run, PART["skel"], [_conc_p(p) for p in (p0, p1, p2, p3, p4)], [True if s_ else False for s_ in (s0, s1, s2, s3, s4)])
 
 
 def seq3(p0: int, p1: int, p2: int, s0: bool, s1: bool, s2: bool) -> bool:
@@ -108,7 +109,8 @@ def seq3(p0: int, p1: int, p2: int, s0: bool, s1: bool, s2: bool) -> bool:
     pre: PART["nreg"] > 2 or (p2 == 0 and not s2)
     post: _
     """
-    return _run(PART["skel"], [p0, p1, p2], [s0, s1, s2])
+    from vf.sym import untraced
+    return untraced(_run, PART["skel"], [_conc_p(p) for p in (p0, p1, p2)], [True if s_ else False for s_ in (s0, s1, s2)])
 
 
 def seqsym(k0: int, k1: int, k2: int, k3: int, p0: int, p1: int, p2: int, p3: int, s0: bool, s1: bool, s2: bool, s3: bool) -> bool:
